@@ -125,6 +125,22 @@ def run_step(w: World, op: dict, *, probes=None, index_every=True) -> StepResult
                                     plan.trigger + f"/fault-{fault['cb']}")
                     w.mark_removed(i, removed)
                 guard(_ad)
+    elif plan.contract in (O.REFUSE_OR_OK, O.ANYRESULT) and exc is not None:
+        res.outcome = "refused"
+        if not unchanged:
+            viol.append(Violation(
+                "C13", "refused-op-changed-state",
+                f"{op['k']} raised {exc_name} ({plan.trigger}) but the tree changed",
+                plan.trigger))
+    elif plan.contract == O.ANYRESULT:
+        # accepted: the outcome is not specified, the tree must stay well-formed
+        res.outcome = "ok"
+        if struct_ok:
+            for i in plan.slots:
+                def _ad(i=i):
+                    removed = adopt(w, i, "free", plan.owner, plan.trigger)
+                    w.mark_removed(i, removed)
+                guard(_ad)
     elif plan.contract == O.NOCHANGE:
         res.outcome = "refused" if exc is not None else "ok"
         if not unchanged:
